@@ -5,11 +5,11 @@
    in order.  What is _partial: deadlock-freedom and "never spins" are proved from the
    observable predicate [assign_progress] (after the assign phase, something computable implies
    something running); that the heuristic inside scheduler.assign establishes it is validated on
-   every round of every recorded run (Sched/Replay.v), not proved.  A bound on the number of
-   rounds is not proved.  Two genuine defects of the unchanged code are recorded as _refuted. *)
+   every round of every recorded run (Sched/Replay.v), not proved.  The number of
+   rounds: C03_events_bounded bounds the events ever handed to the controller, hence the waiting rounds.  Two genuine defects of the unchanged code are recorded as _refuted. *)
 From stdpp Require Import gmap.
 From Coq Require Import NArith String.
-From EKW Require Import Sched.Model Sched.Inv Sched.InvInit Sched.Safety Sched.Progress Sched.Rounds Sched.Example Sched.WfDec.
+From EKW Require Import Sched.Model Sched.Inv Sched.InvInit Sched.Safety Sched.Progress Sched.Rounds Sched.Bound Sched.Example Sched.WfDec.
 From EKW Require Sched.Replay.
 Local Open Scope N_scope.
 
@@ -52,6 +52,14 @@ Proof.
   destruct (run_io_inv_inorder J E Hwf ls _ _ (inv_init J E) (inorder_init J E Hwf) Hr) as [Hinv Hio].
   exact (exit_complete J E Hwf rank s Hdag Hinv Hio).
 Qed.
+
+(* bounded: over any run, under any schedule and event order, the controller is handed at most
+   |outputs of the job| + |consumed datasets| x |hosts| + |requested outputs| events; every
+   waiting round consumes at least one, so the number of waiting rounds has the same bound
+   (and by C03_round_waits_partial every round with a true guard waits) *)
+Theorem C03_events_bounded : ∀ J E ls s css,
+  wf_job J → run J E (init J E) ls = Next (s, css) → (deliveries ls ≤ event_bound J E)%nat.
+Proof. intros J E ls s css Hwf. exact (deliveries_bounded J E Hwf ls s css). Qed.
 
 (* --- genuine defects of the unchanged code (open findings) ------------------------------- *)
 
@@ -105,5 +113,6 @@ Print Assumptions C03_never_raises.
 Print Assumptions C03_wait_implies_outstanding_partial.
 Print Assumptions C03_round_waits_partial.
 Print Assumptions C03_exit_complete.
+Print Assumptions C03_events_bounded.
 Print Assumptions C03_reordered_publications_refuted.
 Print Assumptions C03_none_valued_output_refuted.
